@@ -159,6 +159,7 @@ impl ResultNode {
 impl<'a> NodeSplitIterator<'a> {
 // R11: `impl Iterator for NodeSplitIterator { fn next }` verified as an inherent fn
 //@extract sudachi/src/analysis/node.rs :: impl Iterator for NodeSplitIterator<'_> :: fn next
+//@  twin
 //@  rw R11 1 custom
 //@  | Option<Self::Item>
 //@  > Option<ResultNode>
